@@ -81,6 +81,18 @@ def gen_task(rng, lay, i, focus, knobs):
         d['named_env'] = 'env0'
     if rng.random() < knobs.get('bad_ranks_share', 0.0):
         d['ranks'] = 0
+    if knobs.get('deprecated_share') and \
+            rng.random() < knobs['deprecated_share']:
+        # the same request written with the deprecated attribute names
+        for new_, old_ in (('ranks', 'cpu_processes'),
+                           ('cores_per_rank', 'cpu_threads'),
+                           ('gpus_per_rank', 'gpu_processes'),
+                           ('lfs_per_rank', 'lfs_per_process'),
+                           ('mem_per_rank', 'mem_per_process')):
+            if new_ in d and rng.random() < 0.7:
+                if d[new_] != int(d[new_]):
+                    continue      # the old attributes are integer valued
+                d[old_] = d.pop(new_)
     if knobs.get('partition_share') and \
             rng.random() < knobs['partition_share']:
         # the launch methods driven here serve one partition: 0
@@ -208,6 +220,43 @@ def gen_scenario(rng, tier, focus, knobs):
 # ------------------------------------------------------------------------------
 # reference arithmetic: does a task fit the *idle* pilot?
 #
+DEPRECATED = (('ranks', 'cpu_processes'), ('cores_per_rank', 'cpu_threads'),
+              ('gpus_per_rank', 'gpu_processes'),
+              ('lfs_per_rank', 'lfs_per_process'),
+              ('mem_per_rank', 'mem_per_process'))
+
+
+def as_requested(raw):
+    '''what the application asked for, in current attribute names (the
+    oracle's own reading of a scenario description: deprecated names mean
+    what their replacements mean)'''
+    out = dict(raw)
+    for new_, old_ in DEPRECATED:
+        if old_ in out:
+            v_ = out.pop(old_)
+            if v_:
+                out[new_] = v_
+    return out
+
+
+def requested_descr(sc, st):
+    '''uid -> description; the shape is judged against what the application
+    wrote, not against what TaskDescription.verify() made of it'''
+    descr = {uid: t['description'] for uid, t in st['tasks'].items()}
+    for uid in list(descr):
+        try:
+            raw = as_requested(sc['tasks'][int(uid.split('.')[1])]['descr'])
+        except (ValueError, IndexError):
+            continue
+        d2 = dict(descr[uid])
+        for k in ('ranks', 'cores_per_rank', 'gpus_per_rank', 'lfs_per_rank',
+                  'mem_per_rank', 'ranks_per_node'):
+            if k in raw:
+                d2[k] = raw[k]
+        descr[uid] = d2
+    return descr
+
+
 def usable(lay):
     return (lay['cpn'] - len(lay['blocked_cores']),
             lay['gpn'] - len(lay['blocked_gpus']))
@@ -728,7 +777,7 @@ def oracles(sim, sc, st):
     nodes = {n['index']: n for n in rm['node_list']}
     agent_idx = {n['index'] for n in (rm.get('agent_node_list') or [])} | \
                 {n['index'] for n in (rm.get('service_node_list') or [])}
-    descr = {uid: t['description'] for uid, t in st['tasks'].items()}
+    descr = requested_descr(sc, st)
 
     held     = dict()     # uid -> normalised slots
     grants   = dict()     # uid -> count
@@ -1118,7 +1167,7 @@ def oracle_c04(sim, sc, st):
     lay   = sc['layout']
     child = st.get('child')
     pool  = waitpool_uids(child)
-    descr = {uid: t['description'] for uid, t in st['tasks'].items()}
+    descr = requested_descr(sc, st)
     for uid, reps in sorted(L['sched_reports'].items()):
         if len(reps) > 1:
             v(sim, 'C04', 'multi_report', 'scheduler', uid,
